@@ -78,7 +78,7 @@ module.exports = async function initWasm() {
            * @param {number} period - Period time for generate code, default is 30
            * @returns {boolean} return ture/false for validate
            */
-          validateTOTP: globalThis.validateHOTP,
+          validateTOTP: globalThis.validateTOTP,
 
           /**
            * Generate an otpauth:// URL for TOTP or HOTP setup (e.g., for use with Google Authenticator).
